@@ -612,6 +612,50 @@ def d_function_with_subgraph(m):
     m.graph.output.add().CopyFrom(value_info("h_out", F()))
 
 
+def _fn_with_typed_body_value(m, domain, fname, vname, overload=None):
+    op = m.opset_import.add()
+    op.domain, op.version = domain, 1
+    f = m.functions.add()
+    f.name, f.domain = fname, domain
+    if overload:
+        f.overload = overload
+    f.input.extend(["sx"])
+    f.output.extend(["so"])
+    fo = f.opset_import.add()
+    fo.domain, fo.version = "", 20
+    f.node.add().CopyFrom(node("Relu", ["sx"], [vname], "s_relu"))
+    f.node.add().CopyFrom(node("Neg", [vname], ["so"], "s_neg"))
+    if m.ir_version >= 10:
+        f.value_info.add().CopyFrom(value_info(vname, F(_shape_variants()[2]), "typed body value"))
+    else:
+        m.graph.value_info.add().CopyFrom(value_info(f"{domain}::{fname}/{vname}", F(_shape_variants()[2]), "typed body value"))
+    call = node(fname, ["b"], ["sep_out"], "n_sep", domain=domain, overload=overload)
+    m.graph.node.add().CopyFrom(call)
+    m.graph.output.add().CopyFrom(value_info("sep_out", F()))
+
+
+@_dev
+def d_function_value_name_with_slash(m):
+    """A typed function-body value whose name contains '/', the separator of the experimental IR < 10 encoding
+    '<domain>::<function>/<value>' (hierarchical value names are what exporters produce)."""
+    _fn_with_typed_body_value(m, "seps", "F", "layer/act/out")
+
+
+def separator_corner_models():
+    """Function identifiers the experimental IR < 10 value-info encoding cannot express (malformed-input family only)."""
+    out = []
+    for label, (domain, fname, vname, overload) in (("function_name_with_slash", ("seps", "ns/F", "t", None)), ("domain_with_double_colon", ("a::b", "F", "t", None)),
+                                                    ("overload_below_ir10", ("seps", "F", "t", "ov")), ("all_separators", ("a::b", "ns/F", "x/y", None))):
+        for v in (9, 10):
+            m = baseline(v)
+            _fn_with_typed_body_value(m, domain, fname, vname, overload)
+            if v < 10:
+                # FunctionProto.value_info below IR 10 (a field that does not belong there, but is read all the same)
+                m.functions[-1].value_info.add().CopyFrom(value_info(vname, F(_shape_variants()[2]), "typed body value"))
+            out.append((f"{label}@{v}", m))
+    return out
+
+
 @_dev
 def d_unsorted_nodes(m):
     n0, n1 = onnx.NodeProto(), onnx.NodeProto()
@@ -749,7 +793,7 @@ def gen_models(tier, pairs=False):
     for v in versions:
         yield f"baseline@{v}", baseline(v)
     for name, fn in DEVIATIONS:
-        vs = versions if name in ("function_overloads_and_value_info", "device_configurations", "function_with_attributes", "function_with_subgraph", "custom_domain_node") else [10]
+        vs = versions if name in ("function_overloads_and_value_info", "device_configurations", "function_with_attributes", "function_with_subgraph", "custom_domain_node", "function_value_name_with_slash") else [10]
         if name == "function_overloads_and_value_info":
             vs = [v for v in vs if v >= 10]  # FunctionProto.overload exists from IR version 10
         for v in vs:
@@ -993,8 +1037,8 @@ def _norm_node(n):
         _norm_attr(a)
 
 
-def _norm_graph(g, is_main=False):
-    names = {i.name for i in g.input} | {o.name for o in g.output} | {t.name for t in g.initializer}
+def _norm_graph(g, is_main=False, extra_names=()):
+    names = {i.name for i in g.input} | {o.name for o in g.output} | {t.name for t in g.initializer} | set(extra_names)
     for n in g.node:
         names |= set(n.output)
     init_names = {t.name for t in g.initializer}
@@ -1067,7 +1111,16 @@ def _norm_opsets(field):
 def normalise_model(m):
     m = _copy(m)
     _norm_opsets(m.opset_import)
-    _norm_graph(m.graph, True)
+    extra = set()
+    if m.ir_version < 10:
+        # below IR 10 the types of function-body values live in the main graph's value_info under the experimental
+        # name '<domain>::<function>/<value>': such an entry is referenced when that value exists in that function
+        for f in m.functions:
+            fnames = set(f.input) | set(f.output)
+            for n in f.node:
+                fnames |= set(n.output)
+            extra |= {f"{f.domain}::{f.name}/{v}" for v in fnames if v}
+    _norm_graph(m.graph, True, extra)
     _norm_meta(m)
     for f in ("producer_name", "producer_version", "domain", "doc_string"):
         if m.HasField(f) and getattr(m, f) == "":
